@@ -1,33 +1,50 @@
-(* C11  Include loading is independent of cache history. *)
-From HL Require Import Lib.Bytes Model.Loader Spec.LoaderSpec Tie.C10 Tie.C11 Proofs.LoaderProofs.
+(* C11  Include loading is independent of cache history.
+   Against the pinned tree this statement was refuted (a cache hit returned the cached journal
+   without following its own includes and without marking it visited); the defect was repaired in
+   /repo (fix 01b2939) and the model follows the repaired code.  For the repaired loader the FULL
+   statement is a theorem. *)
+From HL Require Import Lib.Bytes Model.Loader Spec.LoaderSpec Tie.C10 Tie.C11 Proofs.LoaderProofs
+  Proofs.LoaderTraversal Proofs.LoaderHistory.
 Open Scope N_scope.
 
-(* Full statement: along every operation sequence on one loader, every load returns what a
-   fresh loader returns on the files as they are at that moment.  False of the model: *)
-Theorem C11_refuted : ~ C11_statement.
-Proof. exact C11_refuted. Qed.
-Print Assumptions C11_refuted.
+(* along EVERY operation sequence on one loader (loads of any root via Load / LoadFromContent,
+   rewrites and deletions of files with InvalidateFile, ClearCache), every load returns the result
+   and the errors a fresh loader returns on the files as they are at that moment *)
+Theorem C11_holds : C11_statement.
+Proof. exact C11_holds. Qed.
+Print Assumptions C11_holds.
 
-Theorem C11_refuted_second_load_truncates :
-  let s0 := mkSys diamond [] in
-  let '(s1, o1) := lsys_step big s0 (OLoad 0) in
-  let '(s2, o2) := lsys_step big s1 (OLoad 0) in
-  option_map (fun o => option_map r_order (o_res o)) o1 = Some (Some [1; 3; 2]) /\
-  option_map (fun o => option_map r_order (o_res o)) o2 = Some (Some [1; 2]) /\
-  option_map o_errs o2 = Some [] /\
-  option_map (fun o => option_map r_order (o_res o)) (fresh_of s1 big (OLoad 0)) = Some (Some [1; 3; 2]).
-Proof. exact second_load_truncates. Qed.
-Print Assumptions C11_refuted_second_load_truncates.
+(* the invariant behind it: every cache entry is the file as the file system holds it now *)
+Theorem C11_cache_stays_coherent : forall L s op, sys_ok L s -> sys_ok L (fst (lsys_step L s op)).
+Proof. exact sys_ok_step. Qed.
+Print Assumptions C11_cache_stays_coherent.
 
-(* what does hold in every state: after ClearCache the next load is a fresh load ... *)
-Theorem C11_partial_clear_then_fresh : forall L s root,
+(* and the core: within one load, the result does not depend on which coherent cache it starts with *)
+Theorem C11_result_independent_of_cache : forall fs L fuel p dirs v c1 c2 o1,
+  coherent fs L c1 -> coherent fs L c2 ->
+  load_wc fuel fs L p dirs (mkLS v c1) = Some o1 ->
+  exists o2, load_wc fuel fs L p dirs (mkLS v c2) = Some o2 /\ agree o1 o2 /\
+             coherent fs L (cache (o_st o1)) /\ coherent fs L (cache (o_st o2)).
+Proof. exact load_wc_cache_indep. Qed.
+Print Assumptions C11_result_independent_of_cache.
+
+Theorem C11_clear_then_fresh : forall L s root,
   let s' := fst (lsys_step L s OClear) in
   snd (lsys_step L s' (OLoad root)) = fresh_of s L (OLoad root).
 Proof. exact clear_then_load_is_fresh. Qed.
-Print Assumptions C11_partial_clear_then_fresh.
+Print Assumptions C11_clear_then_fresh.
 
-(* ... and a rewritten-and-invalidated file is never served from the cache *)
-Theorem C11_partial_write_invalidates : forall L s k f,
+Theorem C11_write_invalidates : forall L s k f,
   flookup k (s_cache (fst (lsys_step L s (OWrite k f)))) = None.
 Proof. exact write_invalidates. Qed.
-Print Assumptions C11_partial_write_invalidates.
+Print Assumptions C11_write_invalidates.
+
+(* non-vacuity: the diamond that used to be truncated on its second load *)
+Theorem C11_sample_second_load :
+  let s0 := mkSys diamond [] in
+  let '(s1, o1) := lsys_step big s0 (OLoad 0) in
+  let '(s2, o2) := lsys_step big s1 (OLoad 0) in
+  option_map (fun o => option_map r_order (o_res o)) o2 = option_map (fun o => option_map r_order (o_res o)) o1 /\
+  s_cache s1 <> [].
+Proof. exact sample_second_load. Qed.
+Print Assumptions C11_sample_second_load.
